@@ -61,3 +61,4 @@ Print Assumptions C15_user_parser_refuses.
 Example C15_ex : parse_decorated_jwt (format_jwt "user" "eyJ0.eyJq-_.c2ln") = "eyJ0.eyJq-_.c2ln"
               /\ option_map parse_decorated_seed (format_user_config (Some "user") "a.b.c" " SUAAA ") = Some (Some "SUAAA").
 Proof. split; vm_compute; reflexivity. Qed.
+Print Assumptions C15_re_in_fragment.
